@@ -1054,6 +1054,7 @@ pub fn run(tier: Tier) -> i32 {
     let stall = Duration::from_secs(if thorough { 60 } else { 20 });
     let mut acc = Acc::new();
     let n_threads = util::n_threads() as u64;
+    let mut caps: Vec<String> = vec![];
     for sweep in SWEEPS {
         let n = if sweep == "adversarial-verify" || sweep == "adversarial-entries" || sweep == "inspection-commands" { n_threads.min(8) } else { n_threads };
         let mut shards: Vec<Shard> = (0..n)
@@ -1114,7 +1115,17 @@ pub fn run(tier: Tier) -> i32 {
                     );
                     sh.deaths += 1;
                     if sh.deaths > 25 {
-                        util::machinery_error(&format!("C14: shard {} of sweep {} died more than 25 times", sh.shard, sh.sweep));
+                        if entry == "?" {
+                            // the worker never got as far as naming a case: not a verdict about the library
+                            util::machinery_error(&format!("C14: shard {} of sweep {} died more than 25 times without a case in flight", sh.shard, sh.sweep));
+                        }
+                        // round 12: a change that makes a whole family of cases die (every hostile link file
+                        // under a layout with threshold u32::MAX, say) is a violation to report, not a reason to
+                        // give up: the 26 deaths are reported, the rest of this shard is left unexplored and
+                        // the cap is recorded in the evidence
+                        caps.push(format!("shard {} of sweep {}: more than 25 cases killed the worker; cases after index {idx} of this shard not run", sh.shard, sh.sweep));
+                        done[sh.shard as usize] = true;
+                        continue;
                     }
                     sh.start = idx + 1;
                     sh.child = spawn(sh.sweep, sh.shard, n, sh.start, &outdir, thorough);
@@ -1128,6 +1139,7 @@ pub fn run(tier: Tier) -> i32 {
     acc.sample(|| json!({"sweep": "fixture-corruption", "fixture": "rsa-2048.pk8.der", "edit": "byte 17 := 0x80", "entry": "PrivateKey::from_pkcs8"}));
     acc.sample(|| json!({"sweep": "adversarial-verify", "layout": "step \"[\" threshold 4294967295", "link_file": "keyid with a multi-byte character across byte 8"}));
     c.acc = acc;
+    c.caps_hit.extend(caps);
     c.rule = format!(
         "sweeps: (1) every byte string of length <= {} over {{ }} [ ] \" : , 0 - a \\ 0xff into each of {} entry points; (2) every truncation and, at every {}offset, delete / 0x00 / 0x80 / 0xff / low-bit flip / insert 0x30, and every decimal number replaced by 11 boundary spellings, of {} fixtures into the matching entry points; (3) every node of every JSON fixture replaced by each of {} values, deleted, duplicated; (4) hostile artifact paths x hostile patterns x all rule kinds through the rule engine; (5) hostile layouts x hostile link files through in_toto_verify in a private cwd; (7) every decoder on its fixtures while standard output and standard error point at /dev/full; (6) link-directory entries that are not regular UTF-8 files (0xff bytes, BOM, UTF-16, 1 MiB of brackets, a directory / dangling / self-referential symlink / unreadable file named like a link file), delegation trees that are self-similar (sub-directory symlinked to its parent; 8 / 64 / 300 real levels) or hostile below the first level, and record_artifact / record_artifacts on paths that name no readable file (the builder methods add_material / add_product take an operator-chosen path, return no Result and are outside this property). (8) a satisfied step followed by an inspection whose command is unusual (nothing to run, no such executable, a directory, NUL in an argument, exit 3 / 255, killed by a signal, output that is not UTF-8 or is large, entries left in the working directory whose names are not UTF-8 / look like patterns / are dangling or circular symlinks or lead to never-ending special files (/dev/zero, /dev/urandom, a fifo), the working directory removed) x 3 rule sets x with / without a second inspection. Each case also exercises the follow-up calls (verify, prefix, to_bytes, sign). distinct_nontrivial = cases run (each is a distinct input)",
         if thorough { 4 } else { 3 },
